@@ -64,7 +64,7 @@ func probeUnbind() (reproduced bool, detail string, ok bool) {
 		return false, "fixture: " + err.Error(), false
 	}
 	defer fx.close()
-	st := newState(fx.leaderSrv.bc, []Reg{{Store: 1, NPeers: 3, Leader: 0}, {Store: 2, NPeers: 3, Leader: 1}})
+	st := newState(fx.leaderSrv.bc, []Reg{{Store: 1, NPeers: 3, Leader: 0}, {Store: 2, NPeers: 3, Leader: 1}}, 0)
 	req := func() *pdpb.SyncRegionRequest {
 		return &pdpb.SyncRegionRequest{Header: &pdpb.RequestHeader{ClusterId: fx.leaderSrv.ClusterID()},
 			Member: fx.followerSrv.member, StartIndex: fx.leader.VerifNextIndex()}
